@@ -1281,6 +1281,17 @@ class Fillna(Elemwise):
     _defaults = {"value": None}
     operation = M.fillna
 
+    def _simplify_up(self, parent, dependents):
+        if (
+            isinstance(parent, Projection)
+            and parent.ndim == 1
+            and self.frame.ndim == 2
+            and isinstance(self.value, dict)
+        ):
+            # Per-column fill values are keyed by index label for a Series
+            return
+        return super()._simplify_up(parent, dependents)
+
 
 class Replace(Elemwise):
     _projection_passthrough = True
